@@ -24,9 +24,8 @@ theorem validate_reject (O : Oracles) (f : FieldDecl) (v : PyVal)
 theorem construct_spec (O : Oracles) (c : ClassOpts) (fields : List (String × FieldDecl))
     (defaults kw : List (String × PyVal)) :
     Sp (admitsKw O (.struct c fields defaults) kw) (normKw O (.struct c fields defaults) kw)
-      (construct O (.struct c fields defaults) kw) := by
-  simp only [admitsKw, normKw, construct]
-  exact vConstruct_spec c _ kw (validateFields_spec O c defaults kw fields)
+      (construct O (.struct c fields defaults) kw) :=
+  C02_construct_spec O c fields defaults kw
 
 /-- keyword construction succeeds exactly on the documented argument sets, yielding the
     documented instance (required present, undeclared names only with additional properties,
